@@ -14,7 +14,7 @@ use ebml_iterable::tools::{self, SignedVint, Vint};
 pub static DEF: PropDef = PropDef {
     id: "C15",
     level: "exploration",
-    rule: "each case = one shard of the exhaustive value sweeps (unsigned widths <=3 quick / <=4 thorough, signed widths <=3) + boundary lattice (+-2 around 2^(7k), 2^(7k-1), 2^(8k)) + random 64-bit values + decoder sweeps over byte slices (all slices of length <=2, every first byte x random tails x every truncation for lengths 3..9). A value/slice is counted distinct-nontrivial by (function, width, value-class) fingerprint where value-class = position relative to the nearest width boundary.",
+    rule: "each case = one shard of the exhaustive value sweeps (unsigned widths <=3 quick / <=4 thorough, signed widths <=3) + boundary lattice (+-2 around 2^(7k), 2^(7k-1), 2^(7k+1), 2^(8k)) + random 64-bit values + decoder sweeps over byte slices (all slices of length <=2, every first byte x random tails x every truncation for lengths 3..9). A value/slice is counted distinct-nontrivial by (function, width, value-class) fingerprint where value-class = position relative to the nearest width boundary.",
     assumptions: &[
         "reference codec (refcodec.rs) encodes RFC 8794 vints correctly; it shares no code with the repository",
         "the single signed value -2^(7L-1) of each width is a don't-care (may be accepted or rejected; if encoded it must decode back)",
@@ -347,7 +347,8 @@ fn run(c: &mut Case) {
     // ---- lattice (only in the first cases; the lattice is small)
     if idx == 0 {
         for k in 1..=9u32 {
-            for base in [7 * k, 7 * k - 1, 8 * k.min(8)] {
+            // 2^(7k): smallest value of the next width / id marker; 2^(7k+1)-1: largest id of byte length k
+            for base in [7 * k, 7 * k - 1, 7 * k + 1, 8 * k.min(8)] {
                 if base >= 64 {
                     continue;
                 }
